@@ -16,7 +16,17 @@ import (
 )
 
 var ints = []int{math.MinInt, math.MinInt + 1, -2, -1, 0, 1, 2, math.MaxInt - 1, math.MaxInt}
-var strs = []string{"", "a", "ab", "abc", "b", "A", "é", "aé", "\x00", "a\x00", "ab\x00", "\xff", "a\xff"}
+var strs = sharedStorage([]string{"", "a", "ab", "abc", "b", "A", "é", "aé", "\x00", "a\x00", "ab\x00", "\xff", "a\xff"})
+
+// sharedStorage adds, for one backing string, every prefix, every suffix and an equal copy in separate storage: a
+// string and its own proper prefix start at the same address and differ, a copy starts elsewhere and is equal.
+func sharedStorage(xs []string) []string {
+	base := string([]byte("abcab")) // heap-allocated, not interned with the literals
+	for i := 0; i <= len(base); i++ {
+		xs = append(xs, base[:i], base[i:])
+	}
+	return append(xs, string([]byte(base)), string([]byte(base[:2])))
+}
 
 type rec struct {
 	N int
@@ -100,9 +110,14 @@ var tests = []test{
 			return ord.GT
 		})
 		small := []int{-2, -1, 0, 1, 2, 3, 4}
+		// a comparator in the style of cmp.Compare / strings.Compare may return any Ordering value: From hands it on as it is
+		diff := ord.From[int](func(a, b int) ord.Ordering { return ord.Ordering(3*a - b) })
 		for _, a := range small {
 			for _, b := range small {
 				r.Evaluations++
+				if got := diff.Compare(a, b); got != ord.Ordering(3*a-b) {
+					viol(r, "From/ord", "ord.From(f).Compare(%d,%d) = %d, f returns %d", a, b, got, 3*a-b)
+				}
 				if fe.Equal(a, b) != (a == b+1) {
 					viol(r, "From/eq", "eq.From(f).Equal(%d,%d) = %v, f gives %v", a, b, fe.Equal(a, b), a == b+1)
 				}
